@@ -182,7 +182,19 @@ def run_store(case):
         store2.load_state(p)
         clock_loaded = fr(tcB.time())
         fakeB.now += ck["adv2"]
-        after = {"users": observe(usersB, kinds), "markers": [repr(trainersB[f"t{i}"]._previous_training_time) for i in range(len(case["trainers"]))],
+        after_users = observe(usersB, kinds)
+        # the loaded components go on living: further arrivals on side B (sequential buffers only)
+        collsB = usersB.data_collectors_dict
+        any_more = False
+        for i, u in enumerate(case["users"]):
+            if u.get("more"):
+                any_more = True
+                cB = collsB.acquire(f"u{i}")
+                for sid, ts in u["more"]:
+                    state["now"] = ts
+                    cB.collect(sample(u["kind"], sid))
+        more_users = observe(usersB, kinds) if any_more else None
+        after = {"users": after_users, "more_users": more_users, "markers": [repr(trainersB[f"t{i}"]._previous_training_time) for i in range(len(case["trainers"]))],
                  "versions": [infB[f"m{i}"].infer() for i in range(len(case["models"]))],
                  "agents": agentB.flat(), "clock": clock_loaded, "clock_later": fr(tcB.time()),
                  "expect_later": fr(Fraction(clock_loaded[0], clock_loaded[1]) + Fraction(ck["scale_b"]) * Fraction(ck["adv2"]))}
